@@ -787,6 +787,11 @@ def matrix_inverse_pth_root(
   # Only used in lobpcg branches, but required by pytype.
   eigvals, eigvecs, lobpcg_diagnostics = None, None, None
   if lobpcg_topk_precondition > 0:
+    if 5 * lobpcg_topk_precondition >= matrix_size:
+      raise ValueError(
+          f"lobpcg_topk_precondition ({lobpcg_topk_precondition}) must be less "
+          f"than a fifth of the statistics size ({matrix_size}), as "
+          "lobpcg_standard requires")
     # TODO(vladf): reuse previous top-k as the initial search directions
     pad_shape = (matrix_size - lobpcg_topk_precondition,
                  lobpcg_topk_precondition)
